@@ -64,7 +64,7 @@ Proof. exact scan_without_follow_refuted_l. Qed.
 (* non-vacuity: a history with a recycling round after which a stored closure still refers to a shadowed binding *)
 Example C06_nonvacuous :
   let e := fst (run_history cfg_now 10 eng_new h_no_follow) in
-  threshold (fl (sm e)) = initial_threshold * threshold_multiplier /\
+  threshold (fl (sm e)) <> initial_threshold /\
   free (fl (sm e)) <> [] /\ val_okb e (nth 2 (globals e) VVoid) = true /\
   (exists h b c, nth 2 (globals e) VVoid = VClo h b c /\ b <> []).
 Proof. exact nonvacuous_l. Qed.
